@@ -1,11 +1,30 @@
 module verifharness
 
-go 1.22.7
+go 1.23
+
+toolchain go1.23.5
 
 require (
 	github.com/anishathalye/porcupine v1.3.0
+	github.com/attestantio/go-eth2-client v0.21.11
 	github.com/attestantio/vouch v0.0.0
 	pgregory.net/rapid v1.3.0
+)
+
+require (
+	github.com/emicklei/dot v1.6.2 // indirect
+	github.com/fatih/color v1.18.0 // indirect
+	github.com/ferranbt/fastssz v0.1.4 // indirect
+	github.com/goccy/go-yaml v1.13.6 // indirect
+	github.com/klauspost/cpuid/v2 v2.2.9 // indirect
+	github.com/mattn/go-colorable v0.1.13 // indirect
+	github.com/mattn/go-isatty v0.0.20 // indirect
+	github.com/minio/sha256-simd v1.0.1 // indirect
+	github.com/mitchellh/mapstructure v1.5.0 // indirect
+	github.com/pkg/errors v0.9.1 // indirect
+	github.com/prysmaticlabs/go-bitfield v0.0.0-20240618144021-706c95b2dd15 // indirect
+	golang.org/x/sys v0.27.0 // indirect
+	gopkg.in/yaml.v2 v2.4.0 // indirect
 )
 
 replace github.com/attestantio/vouch => /repo
